@@ -472,9 +472,11 @@ def run_shard(shard, tier):
             res.count('values', sum(c * f for c, f, _ in combo))
     elif kind == 'big':
         c = shard['c']
-        for f in BIG_FRAMES:
-            for fpb in BIG_FPB:
-                for xyz in ((100, 97, 0.25), (0.5, 100, 0.5)):
+        # and one data block of exactly 64 K bytes / of one frame more (a block's length is a 32-bit word: nothing bounds it at 64 K)
+        huge = [(65536 // (4 * c), 65536 // (4 * c)), (65536 // (4 * c) + 1, 65536 // (4 * c) + 1), (65536 // (4 * c) + 9, 65536 // (4 * c) + 1)]
+        for f, fpb in [(f, fpb) for f in BIG_FRAMES for fpb in BIG_FPB] + huge:
+            if True:
+                for xyz in ((100, 97, 0.25), (0.5, 100, 0.5)) if f < 1000 else ((100, 97, 0.25),):
                     model = {'passes': [layout_pass(0, c, f, fpb, xyz, odd=True)]}
                     bad, outcome = check_model(model)
                     _record(res, ('big', c, f, fpb, xyz), {'kind': 'model', 'model': model}, True, bad, outcome)
